@@ -24,18 +24,24 @@ class ToolLimit(Exception):
     pass
 
 def sh(cmd, timeout=None, cwd=None, env=None, memlimit_gb=None):
+    """run a command in its own process group; on time-out the whole group is killed (cbmc leaves its SMT solver child behind otherwise)"""
+    import signal
     t0 = time.time()
-    pre = None
-    if memlimit_gb:
-        import resource
-        def pre():
+    def pre():
+        os.setsid()
+        if memlimit_gb:
+            import resource
             lim = int(memlimit_gb * (1 << 30))
             resource.setrlimit(resource.RLIMIT_AS, (lim, lim))
+    p = subprocess.Popen(cmd, stdout=subprocess.PIPE, stderr=subprocess.PIPE, cwd=cwd, env=env, preexec_fn=pre)
     try:
-        p = subprocess.run(cmd, stdout=subprocess.PIPE, stderr=subprocess.PIPE, timeout=timeout, cwd=cwd, env=env, preexec_fn=pre)
-        return p.returncode, p.stdout.decode('utf-8', 'replace'), p.stderr.decode('utf-8', 'replace'), time.time() - t0
-    except subprocess.TimeoutExpired as e:
-        return -9, (e.stdout or b'').decode('utf-8', 'replace'), 'TIMEOUT after %ss' % timeout, time.time() - t0
+        o, e = p.communicate(timeout=timeout)
+        return p.returncode, o.decode('utf-8', 'replace'), e.decode('utf-8', 'replace'), time.time() - t0
+    except subprocess.TimeoutExpired:
+        try: os.killpg(p.pid, signal.SIGKILL)
+        except Exception: pass
+        o, e = p.communicate()
+        return -9, (o or b'').decode('utf-8', 'replace'), 'TIMEOUT after %ss' % timeout, time.time() - t0
 
 def load_jobs():
     spec = importlib.util.spec_from_file_location('jobs', os.path.join(PROOFS, 'jobs.py'))
@@ -211,7 +217,7 @@ def race(cbmc, backends, timeout):
     t0 = time.time(); procs = []
     for b in backends:
         extra = [] if b == 'sat' else (['--sat-solver', 'cadical'] if b == 'cadical' else ['--' + b])
-        procs.append((b, subprocess.Popen(cbmc + extra, stdout=subprocess.PIPE, stderr=subprocess.PIPE)))
+        procs.append((b, subprocess.Popen(cbmc + extra, stdout=subprocess.PIPE, stderr=subprocess.PIPE, preexec_fn=os.setsid)))
     outs = {}
     try:
         while time.time() - t0 < timeout and len(outs) < len(procs):
@@ -228,8 +234,10 @@ def race(cbmc, backends, timeout):
         return -9, '', 'TIMEOUT', time.time() - t0, 'none'
     finally:
         for b, p in procs:
-            if p.poll() is None:
-                p.kill(); p.communicate()
+            import signal
+            try: os.killpg(p.pid, signal.SIGKILL)       # the whole group: cbmc and its SMT solver child
+            except Exception: pass
+            if p.poll() is None: p.communicate()
 
 def run_job(job, tu, safety, scratch, want_trace=False, only_props=None):
     """returns dict(result list, times, error)"""
@@ -360,7 +368,8 @@ def main(argv):
     prop = a.prop
     seed = int(os.environ.get('VERIF_SEED', '1') or 1)
     t_start = time.time()
-    jobs = [j for j in load_jobs() if prop in j['props'] and (a.tier == 'thorough' or j.get('tier', 'quick') == 'quick')]
+    jobs = [j for j in load_jobs() if prop in j['props'] and (a.tier == 'thorough' or (j.get('tier', 'quick') == 'quick' and (not j.get('quick_for') or prop in j['quick_for'])))]
+    if a.all_props: jobs = [j for j in load_jobs() if a.tier == 'thorough' or j.get('tier', 'quick') == 'quick']
     if a.jobs: jobs = [j for j in jobs if re.search(a.jobs, j['id'])]
     if a.list:
         for j in jobs: print(j['id'], j['tu'], j.get('defs'), j['entry'])
@@ -458,7 +467,9 @@ def run_check(prop, a, jobs, findings, scratch, seed, t_start):
     rc = 0
     vio_out = []
     if violations:
-        # re-run the failing jobs with traces and replay natively
+        for j, ob in violations:
+            print('FAILED: "%s" in job %s' % (ob['desc'], j['id']))
+        # re-run the failing jobs with traces and replay natively (the first few distinct ones)
         seen = set()
         for j, ob in violations:
             if (j['id'], ob['desc']) in seen: continue
